@@ -32,8 +32,11 @@ def main():
         for step in c["steps"]:
             coeffs, origin = step["coeffs"], step["origin"]
             try:
-                da.polynom_coefficients = [float(Fraction(*x)) for x in coeffs] if coeffs is not None else None
-                da.expansion_origin = float(Fraction(*origin)) if origin is not None else None
+                for which in step.get("order", "co"):
+                    if which == "c":
+                        da.polynom_coefficients = [float(Fraction(*x)) for x in coeffs] if coeffs is not None else None
+                    else:
+                        da.expansion_origin = float(Fraction(*origin)) if origin is not None else None
             except Exception as exc:
                 res["steps"].append({"error": type(exc).__name__})
                 continue
